@@ -45,9 +45,15 @@ func (l *vfLink) IsClosing() bool                      { return l.closing }
 // vfBuilt builds a frame of arbitrary (symbolic) shape on a builder with
 // arbitrary margins. All five pooled-slice tiers are reachable.
 func vfBuilt(b *Builder) *FrameV1 {
-	off, ovh := vf.Int(), vf.Int()
-	vf.Assume(off >= 0 && off <= 100 && ovh >= 0 && ovh <= 100)
-	b.SetFrameMargins(off, ovh)
+	if vf.Param("margins") == 1 {
+		// every margin the builder accepts
+		off, ovh := vf.Int(), vf.Int()
+		vf.Assume(off >= 0 && off <= 100 && ovh >= 0 && ovh <= 100)
+		b.SetFrameMargins(off, ovh)
+	} else {
+		// the margins instance.go configures (link-frame header and MAC)
+		b.SetFrameMargins(12, 16)
+	}
 	mt := MessageType(vf.U8())
 	nsw, nmsg, napx := vf.Int(), vf.Int(), vf.Int()
 	vf.Assume(nsw >= 0 && nsw <= 255)
